@@ -30,7 +30,7 @@ BUILT['C17'] = {
 }
 BUILT['C19'] = {
     'technique': 'history monitor with before/after snapshots, repeated calls and a replayed control parser (in-process worker)',
-    'level': 'Runtime monitoring: generated API histories (merges and layers interleaved with Documents/Output/OutputDocuments/OutputToWriter in several formats) over directive-rich documents; Documents() must be identical before and after every output call, a repeated output call must return identical bytes, and a control parser replaying only the merges must end with the same documents, merge statuses and outputs. Holds for the histories produced only.',
+    'level': 'Runtime monitoring: generated API histories (merges and layers interleaved with Documents/Output/OutputDocuments/OutputToWriter in several formats) over directive-rich documents; Documents() must be identical before and after every output call, a repeated output call must return identical bytes, and a control parser replaying only the merges must end with the same documents, merge statuses and outputs. Holds for the histories produced only. Fixed histories include string-form cross-document $merge/$replace of a subtree that still holds a map-form $merge.',
     'note': 'Trusted: worker snapshot encoding of Documents(). Comparison with the control stops at the first failed merge (partial merges are order-dependent by themselves).',
 }
 BUILT['C10'] = {
@@ -45,7 +45,7 @@ BUILT['C12'] = {
 }
 BUILT['C13'] = {
     'technique': 'reference monitor by plain concatenation; one worker child per environment batch; CLI sample',
-    'level': 'Runtime monitoring: templates of literal segments and references (document paths, $env:NAME, repeat variable), whole-value and key $env, evaluated by the real library in a child process spawned with the case\'s environment; results must equal the harness\'s plain concatenation, $env results must be strings with exactly the variable\'s bytes, missing references must fail; the environment is also changed between evaluations inside one process (the value at evaluation time counts). Holds for the executions produced only.',
+    'level': 'Runtime monitoring: templates of literal segments and references (document paths, $env:NAME, repeat variable), whole-value and key $env, evaluated by the real library in a child process spawned with the case\'s environment; results must equal the harness\'s plain concatenation, $env results must be strings with exactly the variable\'s bytes, missing references must fail; the environment is also changed between evaluations inside one process (the value at evaluation time counts). Holds for the executions produced only. A fixed probe checks that {$repeat} under a map-level repeat stays the enclosing index after a nested list repeat, and fails outside any repeat.',
     'note': 'Trusted: generators and expected-string computation. Environment values containing $ are excluded from the generated workload: three recorded known findings (known_findings.json) are re-run on every invocation instead.',
 }
 BUILT['C14'] = {
@@ -65,17 +65,17 @@ BUILT['C16'] = {
 }
 BUILT['C05'] = {
     'technique': 'round-trip monitor (independent decoders + bkl re-read of its own output) and process-boundary format-selection monitor (library + CLI routes)',
-    'level': 'Runtime monitoring: generated streams full of token look-alikes and numeric edge values are written by the real library in all six formats; each output is decoded by an independent parser (python json, PyYAML restricted to the YAML 1.2 core schema, tomllib) and read back by bkl itself, and both must give the same documents; every combination of -f, -o extension, real/virtual input extension and the library defaults must write exactly Output(f) for the format the rule selects. Holds for the executions produced only.',
+    'level': 'Runtime monitoring: generated streams full of token look-alikes and numeric edge values are written by the real library in all six formats; each output is decoded by an independent parser (python json, PyYAML restricted to the YAML 1.2 core schema, tomllib) and read back by bkl itself, and both must give the same documents; every combination of -f, -o extension, real/virtual input extension and the library defaults must write exactly Output(f) for the format the rule selects. Holds for the executions produced only. Every third stream is also output, given a later layer that lands in an existing document, and output again: the second bytes must decode to what OutputDocuments returns then.',
     'note': 'Trusted: independent decoders, own input serializers. YAML-1.1-only readings are counted, not judged. Three upstream yaml.v3 emitter defects ("<<" key, "<<" value, leading newline) are recorded known findings and excluded from the generated alphabet.',
 }
 BUILT['C03'] = {
     'technique': 'reference chain-resolution model + hook load-event log + metamorphic variants (rename, $parent re-expression, re-serialization under other extensions) at the process boundary',
-    'level': 'Runtime monitoring: generated directory layouts (filename chains, $parent string/list/wildcard/false/null in any document, symlinks, several inputs, -P, missing layers) run through the real bkl binary and MergeFileLayers; the output must equal the base-first fold of the layers an independent resolution model selects, the files opened (verifEvent load) must be the model\'s sequence, consistent renaming / expressing filename links by $parent / re-serializing files under other extensions must leave the output bytes unchanged, and a missing layer must fail with empty stdout. Holds for the layouts produced only.',
+    'level': 'Runtime monitoring: generated directory layouts (filename chains, $parent string/list/wildcard/false/null in any document, symlinks, several inputs, -P, missing layers) run through the real bkl binary and MergeFileLayers; the output must equal the base-first fold of the layers an independent resolution model selects, the files opened (verifEvent load) must be the model\'s sequence, consistent renaming / expressing filename links by $parent / re-serializing files under other extensions must leave the output bytes unchanged, and a missing layer must fail with empty stdout. Holds for the layouts produced only. One worker process also evaluates one top layer while its lower layer is absent, created, moved to another extension and removed (the chain is resolved from the directory as it is at that moment); symlink layouts include links to links.',
     'note': 'Trusted: chain model (harness/bv/props/c03.py), stream/merge model, own serializers, the load event hook in file.go. One file per layer name; no diamonds.',
 }
 BUILT['C04'] = {
     'technique': 'metamorphic monitor over all 3^n format assignments (+ YAML anchor/alias/merge-key and TOML style variants) with a typed reference-model comparison (in-process worker from files, CLI sample)',
-    'level': 'Runtime monitoring: each generated layer set (numbers chosen so that $match/$delete patterns, $repeat counts and useless-override checks depend on numeric equality) is written in every JSON/YAML/TOML assignment by the harness\'s own serializers and evaluated by the real library; all assignments must agree on success and give byte-identical json/yaml/toml output, and the typed result must equal the reference model on the logical trees (integers exact, doubles bit-identical). Holds for the layer sets produced only.',
+    'level': 'Runtime monitoring: each generated layer set (numbers chosen so that $match/$delete patterns, $repeat counts and useless-override checks depend on numeric equality) is written in every JSON/YAML/TOML assignment by the harness\'s own serializers and evaluated by the real library; all assignments must agree on success and give byte-identical json/yaml/toml output, and the typed result must equal the reference model on the logical trees (integers exact, doubles bit-identical). Holds for the layer sets produced only. The YAML anchor variant also carries a merge key holding a list of three aliases with overlapping keys.',
     'note': 'Trusted: own serializers (validated against independent decoders), stream/merge model, worker value encoding (int vs float vs other Go types).',
 }
 BUILT['C08'] = {
@@ -85,7 +85,7 @@ BUILT['C08'] = {
 }
 BUILT['C09'] = {
     'technique': 'history monitor over (input, run kind, status, sha256(output)) events: repeated in-process, fresh processes, and concurrent goroutines under the Go race detector (-race build of the worker)',
-    'level': 'Runtime monitoring: inputs pooled from the other properties\' generators plus determinism-specific shapes are evaluated N times in one process, from G goroutines at once (half of them on other inputs) in a -race build for R rounds, and in fresh processes from files with shuffled key order; wildcard parents over mixed formats, a lower layer that changes its extension between two evaluations in one process, and bkld/bkli/bklr repeated on the same files are part of the workload; all events of one input must be identical and the race detector must report nothing. Holds for the executions and interleavings produced only.',
+    'level': 'Runtime monitoring: inputs pooled from the other properties\' generators plus determinism-specific shapes are evaluated N times in one process, from G goroutines at once (half of them on other inputs) in a -race build for R rounds, and in fresh processes from files with shuffled key order; wildcard parents over mixed formats, a lower layer that changes its extension between two evaluations in one process, and bkld/bkli/bklr repeated on the same files are part of the workload; all events of one input must be identical and the race detector must report nothing. Holds for the executions and interleavings produced only. File cases include parent/child pairs whose child overrides below the top level, evaluated repeatedly in one process; fixed programs include maps carrying both $encode and $decode.',
     'note': 'Trusted: Go race detector (reports only races on executed paths), worker concurrency driver (one Parser per goroutine). Error messages are not compared.',
 }
 BUILT['C18'] = {
